@@ -21,6 +21,7 @@ _real_getpgid = os.getpgid
 _real_killpg = os.killpg
 _real_kill = os.kill
 _real_time = time.time
+_sleep = time.sleep
 
 _ACTIVE = None  # the active Kernel, if any
 _INSTALLED = False
@@ -93,6 +94,8 @@ class Kernel:
         self.pending = False
         self.in_point = 0
         self.fatal = None  # callback(kind, detail)
+        self.activity = 0
+        self.by_watchdog = False
         self.stats = {
             "coalesced": 0, "exit_before_reg": 0, "popen_race": 0,
             "foreign_exit": 0, "exit_in_handler": 0, "max_running": 0,
@@ -110,7 +113,33 @@ class Kernel:
     def log(self, kind, **kw):
         kw["e"] = kind
         self.events.append(kw)
+        self.activity += 1
         return len(self.events) - 1
+
+    def start_watchdog(self, idle_s=0.5):
+        """If the main thread sits in a lock wait (e.g. joining a tee thread that
+        waits for EOF from a child that nobody killed), virtual children would
+        never make progress.  A real child eventually ends by itself: after
+        `idle_s` without any kernel activity the watchdog lets all running
+        children exit (logged with watchdog=True)."""
+        def loop():
+            last, since = -1, _real_time()
+            while True:
+                _sleep(0.05)
+                now = _real_time()
+                if self.activity != last:
+                    last, since = self.activity, now
+                    continue
+                if now - since >= idle_s and self.running():
+                    self.by_watchdog = True
+                    try:
+                        for p in self.running():
+                            self._exit_proc(p)
+                    finally:
+                        self.by_watchdog = False
+                    since = now
+        t = threading.Thread(target=loop, daemon=True, name="vf-watchdog")
+        t.start()
 
     def _new_pid(self):
         self.next_pid += 1
@@ -163,7 +192,7 @@ class Kernel:
                     pass
         p.fds = []
         p.exit_idx = self.log("exit", pid=p.pid, task=p.task, status=p.status,
-                              foreign=p.foreign)
+                              foreign=p.foreign, watchdog=self.by_watchdog)
         if p.foreign:
             self.stats["foreign_exit"] += 1
         if self._in_handler:
@@ -208,6 +237,7 @@ class Kernel:
     def point(self, kind, polled=None, blocking=False):
         """A scheduling point in the main thread.  Returns 'after' if the
         handler has to run after the caller's syscall."""
+        self.activity += 1
         entry = self._tape_next()
         mode = entry & 1
         sel = entry >> 1
